@@ -67,6 +67,16 @@ def gen_cases(ctx):
     kinds = ["renumber", "respell", "both"]
     for i in range(n):
         fam = i % 8
+        if fam == 4:  # random molecule (rings 3..12, fused / spiro / bridged, many centres, N / P / S lone-pair centres)
+            from .. import molgen
+
+            skel = molgen.random_smiles(rng, n_heavy=(4, 16) if ctx.tier == "quick" else (4, 26))
+            iso = molgen.stereoisomers(skel, rng) if skel else []
+            if not iso:
+                continue
+            smi = iso[rng.randrange(len(iso))]
+            yield {"kind": "same", "smiles": smi, "variant": kinds[(i // 8) % 3], "opt": (i // 24) % 8, "vseed": rng.randrange(1 << 30), "random_molecule": True}
+            continue
         if fam < 5:
             skel = SKELETONS[(i // 8 * 5 + fam) % len(SKELETONS)]
             iso = isomers(skel)
@@ -136,6 +146,15 @@ def _n_stereo(m):
     return n
 
 
+def _unspecified_stereo(m):
+    from rdkit import Chem
+
+    try:
+        return [e for e in Chem.FindPotentialStereo(m) if e.specified == Chem.StereoSpecified.Unspecified]
+    except Exception:  # noqa: BLE001
+        return []
+
+
 def _klass(m):
     from rdkit import Chem
 
@@ -179,11 +198,31 @@ def check_case(ctx, case):
     except Exception as e:  # noqa: BLE001
         ctx.violate(f"C12/import-raises:{type(e).__name__}/{klass}/{kind}", f"import raised {e!r} for {case['smiles']} ({okey})", case)
         return
+    def invented_orientation():
+        """mechanism classifier of the recorded finding: stereo_complete=True, RDKit itself reports an unlabelled potential
+        double-bond stereo unit in this molecule, and the very same two molecules import to EQUAL graphs (and to a proper
+        renaming) once stereo_complete is switched off with all other options unchanged - so the disagreement consists
+        of nothing but the orientations that stereo_complete invents for unlabelled double bonds"""
+        if not OPTS[opt][0] or not any(str(e.type) == "Bond_Double" for e in _unspecified_stereo(m1)):
+            return False
+        o0 = OPTS.index((False,) + tuple(OPTS[opt][1:]))
+        try:
+            h1, h2 = _conv(o0)(m1), _conv(o0)(m2)
+            if old2new is not None and sem.pg_diff(sem.pg_relabel(snap(h1), old2new), snap(h2), mode="equiv", attrs=False):
+                return False
+            return bool(h1 == h2)
+        except Exception:  # noqa: BLE001
+            return False
+
     if old2new is not None:
         want = sem.pg_relabel(snap(g1), old2new)
         d = sem.pg_diff(want, snap(g2), mode="equiv", attrs=False)
         if d:
             part = d[0].split(":")[0].split("[")[0].split(" of ")[0].replace(" ", "-")
+            if part == "bond_stereo" and invented_orientation():
+                ctx.count("invented_orientation_cases")
+                ctx.violate("C12/same-isomer-unequal/unlabelled-double-bond/stereo_complete=1", f"{case['smiles']} ({okey}): import of the renumbered molecule is not the renamed import: {'; '.join(d[:2])}", case)
+                return
             ctx.violate(f"C12/renumbering-not-a-renaming/{klass}/{part}", f"{case['smiles']} ({okey}): import of the renumbered molecule is not the renamed import: {'; '.join(d[:2])}", case)
             return
     try:
@@ -192,7 +231,10 @@ def check_case(ctx, case):
     except Exception as e:  # noqa: BLE001
         ctx.violate(f"C12/eq-raises:{type(e).__name__}/{klass}/{kind}", f"== / hash raised {e!r} for {case['smiles']}", case)
         return
-    if not eq:
+    if not eq and invented_orientation():
+        ctx.count("invented_orientation_cases")
+        ctx.violate("C12/same-isomer-unequal/unlabelled-double-bond/stereo_complete=1", f"{case['smiles']} vs {Chem.MolToSmiles(m2, canonical=False)} ({okey}) import to unequal graphs", case)
+    elif not eq:
         ctx.violate(f"C12/same-isomer-unequal/{klass}/{kind if klass != 'cumulated-double-bond' else 'stereo_complete=%d' % OPTS[opt][0]}", f"{case['smiles']} vs {Chem.MolToSmiles(m2, canonical=False)} ({okey}) import to unequal graphs", case)
     elif not h:
         ctx.violate(f"C12/same-isomer-hash-differs/{klass}/{kind}", f"{case['smiles']} ({okey}): equal graphs, different hashes", case)
